@@ -18,7 +18,8 @@ from ..envs import SimFS, bytes_to_bits
 from ..kernel import Engine, call, canon, exc_is
 
 CLASSES = ('Bits', 'BitArray', 'ConstBitStream', 'BitStream')
-KINDS = ('bytes', 'bytearray', 'memoryview', 'bitarray', 'bytesio', 'filename', 'handle', 'mv_cast_H', 'mv_cast_I', 'array_H', 'bufreader')
+KINDS = ('bytes', 'bytearray', 'memoryview', 'bitarray', 'bytesio', 'filename', 'handle', 'mv_cast_H', 'mv_cast_I', 'array_H', 'bufreader',
+         'bytesio_used', 'handle_update', 'handle_raw')
 INT_TYPES = ('uint', 'int', 'uintbe', 'intbe', 'uintle', 'intle', 'uintne', 'intne')
 
 
@@ -158,7 +159,7 @@ class EReject(Engine):
                 for o in pts:
                     for ln in pts:
                         self.queue.append({'k': 'window', 'offset': o, 'length': ln})
-            if cfg.get('kind') in ('filename', 'handle'):
+            if cfg.get('kind') in ('filename', 'handle', 'handle_update', 'handle_raw'):
                 self.fs = SimFS()
                 self.path = self.fs.new_file(self.data)
         else:
@@ -323,6 +324,13 @@ class EReject(Engine):
                 st, x = call(C, bitarray=ba, **kw)
             elif kind == 'bytesio':
                 st, x = call(C, io.BytesIO(data), **kw)
+            elif kind == 'bytesio_used':
+                # a BytesIO the caller has written (or partly read): where it stands is not part of its content
+                bio = io.BytesIO()
+                bio.write(data)
+                if len(data) > 1 and (o or 0) % 16 >= 8:
+                    bio.seek(1)
+                st, x = call(C, bio, **kw)
             elif kind == 'bufreader':
                 # a buffered reader that is not a named file (pipe, wrapped in-memory stream)
                 st, x = call(C, io.BufferedReader(io.BytesIO(data)), **kw)
@@ -330,6 +338,9 @@ class EReject(Engine):
                 st, x = call(C, filename=self.path, **kw)
             elif kind == 'handle':
                 h = open(self.path, 'rb')
+                st, x = call(C, h, **kw)
+            elif kind in ('handle_update', 'handle_raw'):
+                h = open(self.path, 'r+b') if kind == 'handle_update' else open(self.path, 'rb', buffering=0)
                 st, x = call(C, h, **kw)
             else:
                 return {'skip': kind}, []
